@@ -112,4 +112,8 @@ theorem canonical_encodeCanon (v : JVal) (hv : v.numsOk = true) (hd : v.noDupKey
   have h1 := (parse_encodeCanon v hv).1
   rw [canonical_of_parse h1 (ofJVal_surrogatesOk _), ofJVal_toJVal, encodeCanon_normNums, encodeCanon_sorted v hd]
 
+/-- Canonicalising *any* compact rendering of a value (any member order) gives its canonical bytes. -/
+theorem canonical_encode (v : JVal) (hv : v.numsOk = true) : canonical (encode v) = .ok (encodeCanon v) := by
+  rw [canonical_of_parse (parse_encode v hv) (ofJVal_surrogatesOk _), ofJVal_toJVal, encodeCanon_normNums]
+
 end V.Json
